@@ -271,7 +271,6 @@ def r3(cx):
     rng = du.origin(st['a'][1])
     ok = rng['k'] == 'agg' and 'Range' in rng['rv'].get('adt', '') and Q.operand_name(body, du, rng['rv']['ops'][0]) == 'begin'
     if ok:
-        end = du.origin(rng['rv']['ops'][1])
         endname = Q.operand_name(body, du, rng['rv']['ops'][1])
         ok = endname in ('end', 'self.index')
     cx.site('%s: splice(begin..end) at %s' % (body.fn, body.loc(st)))
@@ -306,8 +305,6 @@ def r3(cx):
         if p:
             cx.violation(CSUB, 'index-not-rewound', 'a path from the splice to return does not reset the index to `begin`',
                          loc=body.loc(st), path=Q.render_path(body, p))
-        if not all(body.dominates(sb, g) or g == sb for g in good):
-            pass
 
 
 def _contains(node, pred):
